@@ -213,9 +213,17 @@ func (w *world) open() {
 	if w.slow {
 		mopts = append(mopts, meta.WithMaxBatchDelay(2*time.Millisecond))
 	}
+	// With a write-cache the flush workers write into the blobstor while holding
+	// the cache's mode lock; if that write waited for the combined-batch timer, a
+	// concurrent Close would block on the (non-durable) mutex and the bubble's fake
+	// clock would never fire the timer. So no batching timer on that path.
+	fsto := []fstree.Option{fstree.WithCombinedWriteInterval(time.Millisecond)}
+	if w.wc {
+		fsto = []fstree.Option{fstree.WithCombinedCountLimit(1)}
+	}
 	sh, err := stor.OpenShard(stor.ShardCfg{
 		Dir: w.dir, Epoch: w.ep, WriteCache: w.wc, MetaOpts: mopts,
-		FSTOpts: []fstree.Option{fstree.WithCombinedWriteInterval(time.Millisecond)},
+		FSTOpts: fsto,
 		Extra:   []shard.Option{shard.WithExpiredObjectsCallback(w.expiredCallback)},
 	})
 	if err != nil {
